@@ -156,6 +156,12 @@ func runSnps(vec map[string]interface{}) map[string]interface{} {
 		}
 	}
 	obs["rows"] = rows
+	if gBool(vec, "cli") && err == nil {
+		args := flagBool([]string{"snps", "-r", "@ref.fa", "-q", "@q.fa"}, "--hard-gaps", hard)
+		for k, v := range cliRun(cliCase{files: map[string][]byte{"ref.fa": refFa, "q.fa": qFa}, args: args, inproc: out.String()}) {
+			obs[k] = v
+		}
+	}
 
 	thr := gIntD(vec, "thr", -1)
 	if thr >= 0 {
@@ -188,6 +194,13 @@ func runSnps(vec map[string]interface{}) map[string]interface{} {
 			}
 		}
 		obs["agg"] = agg
+		if gBool(vec, "cli") && err == nil {
+			args := flagBool([]string{"snps", "-r", "@ref.fa", "-q", "@q.fa", "--aggregate", "--threshold", ts}, "--hard-gaps", hard)
+			r := cliRun(cliCase{files: map[string][]byte{"ref.fa": refFa, "q.fa": qFa}, args: args, inproc: aout.String()})
+			for k, v := range r {
+				obs["agg_"+k] = v
+			}
+		}
 	}
 	return obs
 }
@@ -233,6 +246,21 @@ func runClosest(vec map[string]interface{}) map[string]interface{} {
 		return obs
 	}
 	obs["err"] = errStr(err)
+	if gBool(vec, "cli") && err == nil {
+		args := []string{"closest", "--query", "@q.fa", "--target", "@t.fa", "-m", measure, "-t", itoa(threads)}
+		args = flagInt(args, "-n", n, 0)
+		if dthou >= 0 {
+			if measure == "snp" {
+				args = append(args, "-d", itoa(dthou))
+			} else {
+				args = append(args, "-d", thousandths(dthou))
+			}
+		}
+		args = flagBool(args, "--table", table && !plain)
+		for k, v := range cliRun(cliCase{files: map[string][]byte{"q.fa": qFa, "t.fa": tFa}, args: args, inproc: out.String()}) {
+			obs[k] = v
+		}
+	}
 	ls := lines(out.String())
 	obs["header"] = ""
 	rows := []interface{}{}
